@@ -73,7 +73,7 @@ fn plan_c31(seed: u64, tier: &str) -> Plan {
     // foreign participants with short leases, some shorter than one worker iteration
     for id in 0..r.usize(0, 2) as u32 {
         let lease_ms = *r.pick(&[1u64, 10, 49, 50, 51, 100, 500]);
-        clients.push(script(vec![Op::Sleep { us: r.range(0, 500_000) }, Op::ForeignSpdp { id, dst_p: r.below(2) as u32, domain: 0, domain_in_msg: Some(0), tag: None, lease_ms, every_ms: (lease_ms / 2).max(1), count: r.range(1, 4) as u32 }]));
+        clients.push(script(vec![Op::Sleep { us: r.range(0, 500_000) }, Op::ForeignSpdp { id, dst_p: r.below(2) as u32, domain: 0, domain_in_msg: Some(0), tag: None, lease_ms, every_ms: (lease_ms / 2).max(1), count: r.range(1, 4) as u32, sn0: 0 }]));
     }
     clients.push(daemon(vec![Op::Drain { r: 0, period_us: 7000, read_only: false }]));
     plan.phases.push(phase("workload", false, clients));
